@@ -710,9 +710,19 @@ impl<R: BufRead + Seek> WebPDecoder<R> {
         self.r
             .seek(io::SeekFrom::Start(self.animation.next_frame_start))?;
 
-        let anmf_size = match read_chunk_header(&mut self.r)? {
-            (WebPRiffChunk::ANMF, size, _) if size >= 32 => size,
-            _ => return Err(DecodingError::ChunkHeaderInvalid(*b"ANMF")),
+        // Other chunks may sit between two ANMF chunks (the chunk scan of `read_data` steps over them
+        // when it counts the frames): step over them here as well.
+        let anmf_size = loop {
+            match read_chunk_header(&mut self.r)? {
+                (WebPRiffChunk::ANMF, size, _) if size >= 32 => break size,
+                (WebPRiffChunk::ANMF, _, _) => {
+                    return Err(DecodingError::ChunkHeaderInvalid(*b"ANMF"))
+                }
+                (_, _, size_rounded) => {
+                    self.r.seek_relative(size_rounded as i64)?;
+                    self.animation.next_frame_start += size_rounded + 8;
+                }
+            }
         };
 
         // Read ANMF chunk
